@@ -840,3 +840,50 @@ func (e *Engine) contractPkg(callee *ssa.Function, c *Contract) *types.Package {
 	}
 	return e.pkgOfContract(c)
 }
+
+// sortOfStateName: SMT sort of a heap array from its name (H|type|field|leaf), for names not yet used in a VC.
+func (e *Engine) sortOfStateName(name string) string {
+	parts := strings.Split(name, "|")
+	if len(parts) != 4 || parts[0] != "H" {
+		return ""
+	}
+	var fi, li int
+	fmt.Sscanf(parts[2], "%d", &fi)
+	fmt.Sscanf(parts[3], "%d", &li)
+	for key, id := range e.fieldIDs {
+		_ = id
+		if strings.HasPrefix(key, parts[1]+"#") {
+			f := e.fieldByID[e.fieldIDs[key]]
+			st := f.st.Underlying().(*types.Struct)
+			if fi < st.NumFields() {
+				ls := layout(st.Field(fi).Type())
+				if li < len(ls) {
+					return arraySort(SortRef, ls[li].Sort)
+				}
+			}
+		}
+	}
+	return ""
+}
+
+// objectNameSorts: heap array names of an object type together with their SMT sorts.
+func (e *Engine) objectNameSorts(t types.Type, out map[string]string) {
+	switch u := t.Underlying().(type) {
+	case *types.Struct:
+		for i := 0; i < u.NumFields(); i++ {
+			ft := u.Field(i).Type()
+			if ptrIsThin(ft) {
+				e.objectNameSorts(ft, out)
+				continue
+			}
+			for k, lf := range layout(ft) {
+				out[fmt.Sprintf("H|%s|%d|%d", typeKey(t), i, k)] = arraySort(SortRef, lf.Sort)
+			}
+		}
+	case *types.Array:
+		et := u.Elem()
+		if ptrIsThin(et) {
+			e.objectNameSorts(et, out)
+		}
+	}
+}
